@@ -1,6 +1,7 @@
 package main
 
 import (
+	"go/constant"
 	"fmt"
 	"go/ast"
 	"go/token"
@@ -515,6 +516,13 @@ func (c *Ctx) scanPredsD(fi *FuncInfo, args []ast.Expr, pi *predInfo, depth int)
 						return true
 					}
 					for i, lh := range as.Lhs {
+						// lower, upper := helper(…): the i-th result of the helper
+						if l, ok := lh.(*ast.Ident); ok && info.ObjectOf(l) == obj && len(as.Rhs) == 1 && len(as.Lhs) > 1 {
+							if call, ok := ast.Unparen(as.Rhs[0]).(*ast.CallExpr); ok {
+								c.scanHelperResult(fi, call, i, pi, depth+1)
+							}
+							continue
+						}
 						if l, ok := lh.(*ast.Ident); ok && info.ObjectOf(l) == obj && i < len(as.Rhs) && len(as.Lhs) == len(as.Rhs) {
 							rhs := ast.Unparen(as.Rhs[i])
 							// x = append(x, conds…)
@@ -546,24 +554,7 @@ func (c *Ctx) scanPredsD(fi *FuncInfo, args []ast.Expr, pi *predInfo, depth int)
 		}
 		if objPkgPath(o) != pkgSQL {
 			// a module helper returning a condition / a list of conditions
-			if fn, ok := o.(*types.Func); ok && strings.HasPrefix(objPkgPath(o), modPath) && depth < 4 {
-				if hp := c.ByPath[objPkgPath(o)]; hp != nil {
-					if hd := c.declOf(hp, fn); hd != nil && hd.Body != nil {
-						hfi := &FuncInfo{Pkg: hp, Decl: hd}
-						undo := bindParams(hp.TypesInfo, hd, fi, call)
-						ast.Inspect(hd.Body, func(n ast.Node) bool {
-							if _, isLit := n.(*ast.FuncLit); isLit {
-								return false
-							}
-							if r, ok := n.(*ast.ReturnStmt); ok && len(r.Results) >= 1 {
-								c.scanPredsD(hfi, r.Results[:1], pi, depth+1)
-							}
-							return true
-						})
-						undo()
-					}
-				}
-			}
+			c.scanHelperResult(fi, call, 0, pi, depth)
 			continue
 		}
 		switch o.Name() {
@@ -573,7 +564,7 @@ func (c *Ctx) scanPredsD(fi *FuncInfo, args []ast.Expr, pi *predInfo, depth int)
 			if len(call.Args) != 2 {
 				continue
 			}
-			col := c.normText(call.Args[0])
+			col := c.colText(fi, call.Args[0], 0)
 			fl, tl := c.boundSide(fi, call.Args[1], 0)
 			lower := o.Name() == "Ge" || o.Name() == "Gt"
 			isTS := hasAny(col, "timestamp_ns", "start_time_unix_nano")
@@ -601,12 +592,12 @@ func (c *Ctx) scanPredsD(fi *FuncInfo, args []ast.Expr, pi *predInfo, depth int)
 				pi.upperDate = true
 			}
 		case "Eq":
-			if len(call.Args) == 2 && hasAny(c.normText(call.Args[0]), "trace_id", "fingerprint") {
+			if len(call.Args) == 2 && hasAny(c.colText(fi, call.Args[0], 0), "trace_id", "fingerprint") {
 				pi.idIn = true
 			}
 		case "NewIn":
 			if len(call.Args) >= 2 {
-				col := c.normText(call.Args[0])
+				col := c.colText(fi, call.Args[0], 0)
 				if strings.Contains(col, "type") {
 					pi.types = true
 				} else if hasAny(col, "fingerprint", "trace_id", "span_id") {
@@ -615,6 +606,83 @@ func (c *Ctx) scanPredsD(fi *FuncInfo, args []ast.Expr, pi *predInfo, depth int)
 			}
 		}
 	}
+}
+
+// scanHelperResult: the conditions a module function / method returns as its idx-th result, scanned in its own context with its
+// parameters bound to the call's arguments (named results are followed through their assignments).
+func (c *Ctx) scanHelperResult(fi *FuncInfo, call *ast.CallExpr, idx int, pi *predInfo, depth int) {
+	info := fi.Pkg.TypesInfo
+	o := calleeObj(info, call)
+	fn, ok := o.(*types.Func)
+	if !ok || !strings.HasPrefix(objPkgPath(o), modPath) || depth >= 4 {
+		return
+	}
+	hp := c.ByPath[objPkgPath(o)]
+	if hp == nil {
+		return
+	}
+	hd := c.declOf(hp, fn)
+	if hd == nil || hd.Body == nil {
+		return
+	}
+	hfi := &FuncInfo{Pkg: hp, Decl: hd}
+	undo := bindParams(hp.TypesInfo, hd, fi, call)
+	defer undo()
+	ast.Inspect(hd.Body, func(n ast.Node) bool {
+		if _, isLit := n.(*ast.FuncLit); isLit {
+			return false
+		}
+		r, ok := n.(*ast.ReturnStmt)
+		if !ok {
+			return true
+		}
+		switch {
+		case len(r.Results) > idx:
+			c.scanPredsD(hfi, r.Results[idx:idx+1], pi, depth+1)
+		case len(r.Results) == 0 && hd.Type.Results != nil:
+			// naked return: the named result
+			k := 0
+			for _, f := range hd.Type.Results.List {
+				for _, nm := range f.Names {
+					if k == idx {
+						c.scanPredsD(hfi, []ast.Expr{nm}, pi, depth+1)
+					}
+					k++
+				}
+			}
+		}
+		return true
+	})
+}
+
+// colText: the text of a column expression with the parameters of the helper being scanned replaced by what the caller passes
+// (`sql.NewRawObject(col)` in `dateLower(col string)` called as `dateLower("time_series.date")`).
+func (c *Ctx) colText(fi *FuncInfo, e ast.Expr, depth int) string {
+	out := c.normText(e)
+	if depth > 4 {
+		return out
+	}
+	info := fi.Pkg.TypesInfo
+	ast.Inspect(e, func(n ast.Node) bool {
+		if ex, ok := n.(ast.Expr); ok {
+			// a named constant: its value
+			if tv, ok := info.Types[ex]; ok && tv.Value != nil && tv.Value.Kind() == constant.String {
+				out += " " + constant.StringVal(tv.Value)
+			}
+		}
+		id, ok := n.(*ast.Ident)
+		if !ok {
+			return true
+		}
+		obj := info.Uses[id]
+		if bnd, ok := g1Binds[obj]; ok && obj != nil {
+			delete(g1Binds, obj)
+			out += " " + c.colText(bnd.fi, bnd.e, depth+1)
+			g1Binds[obj] = bnd
+		}
+		return true
+	})
+	return out
 }
 
 var ruleG1 = &Rule{
